@@ -143,12 +143,12 @@ func (s *simscreen) Init() error {
 
 func (s *simscreen) Fini() {
 	s.Lock()
+	if s.quit != nil && !s.fini {
+		close(s.quit)
+	}
 	s.fini = true
 	s.back.Resize(0, 0)
 	s.Unlock()
-	if s.quit != nil {
-		close(s.quit)
-	}
 	s.Lock()
 	s.physw = 0
 	s.physh = 0
